@@ -264,6 +264,64 @@ end
 
 def wellFormed (e : Expr) : Bool := wfAt [] e && decide (e.numParams ≤ maxArgs)
 
+/-! ### the fragment of `vm_lambda_partial` (C21)
+
+The VM keeps every lambda parameter in a global register.  `Expr.regSafe` is the syntactic class of
+programs for which that is invisible: (1) no lambda uses, in value position, a parameter of an
+enclosing lambda (`bound`), and (2) inside a lambda body no own parameter is read after (in
+evaluation order: arguments left to right, then the function expression) a call that may run lambda
+code — a call of a lambda literal, of a computed function, or of one of the higher-order builtins —
+because such a call may re-enter the same lambda and overwrite its registers.  The complement of
+`regSafe` is the input class of the finding `closure-registers`. -/
+
+/-- builtins whose Go body calls back into the VM -/
+def Builtin.higherOrder : Builtin → Bool
+  | .call1 | .call2 | .apply | .force => true
+  | _ => false
+
+namespace Expr
+
+mutual
+  /-- `regScan bound own dirty e = some dirty'`: `e` (part of the body of a lambda with parameters `own`,
+  enclosed by lambdas with parameters `bound`) is in the fragment when entered with `dirty` = "a call that
+  may run lambda code has happened in this activation"; `dirty'` = the same after `e`.  `none` = outside. -/
+  def regScan (bound own : List String) (d : Bool) : Expr → Option Bool
+    | .sym s =>
+      if own.contains s then (if d then none else some false)
+      else if bound.contains s then none else some d
+    | .lit _ => some d
+    | .lam ps b =>
+      match regScan (own ++ bound) ps false b with
+      | some _ => some d
+      | none => none
+    | .call f args _ =>
+      match regScanArgs bound own d args with
+      | none => none
+      | some d1 =>
+        match f with
+        | .sym s => match Builtin.ofName s with
+          | some b => some (d1 || b.higherOrder)
+          | none => some d1
+        | .lit _ => some d1
+        | .lam _ _ => match regScan bound own d1 f with
+          | some _ => some true
+          | none => none
+        | .call _ _ _ => match regScan bound own d1 f with
+          | some _ => some true
+          | none => none
+  def regScanArgs (bound own : List String) (d : Bool) : List Expr → Option Bool
+    | [] => some d
+    | a :: as =>
+      match regScan bound own d a with
+      | none => none
+      | some d1 => regScanArgs bound own d1 as
+end
+
+/-- the fragment of `vm_lambda_partial`; `!regSafe` = input class of the finding `closure-registers` -/
+def regSafe (e : Expr) : Bool := (regScan [] [] false e).isSome
+
+end Expr
+
 /-- the reference semantics of a whole program -/
 def interp (fuel : Nat) (e : Expr) : Res Val :=
   if wellFormed e then evalWith (applyFn fuel) [] e else .error .error
